@@ -136,7 +136,8 @@ func c16Sequence(r *rep.Reporter, kind string, si int, fixed time.Time, bases []
 		return mustServer(o)
 	}
 	P := mk(drv.Opts{})
-	H := mk(drv.Opts{HostBucket: true})
+	// (every second sequence: together with a host-base list that is there but empty - no bases)
+	H := mk(drv.Opts{HostBucket: true, HostBasesEmpty: si%2 == 1})
 	HB := mk(drv.Opts{HostBases: bases})
 	// nested bases, in either order: every '<label>.<base>' of every base must be honoured
 	// (first labels that sort before and after the shorter base's: api < example < s3)
